@@ -156,14 +156,13 @@ def keywordVariant (k : String) : String :=
   | [] => "Keyword"
 
 /-- the documented regular token classes, as the strings the lexer declares them with
-(`Re` values above are their meaning) and the callback attached to each: `logos::skip` for the
-line comment, and the three callbacks that check the matched text against its pattern (the
-generated lexer alone does not implement longest match for these, see notes/C12.md) -/
+(`Re` values above are their meaning) and the callback attached to each (`logos::skip`: the
+line comment is not a token) -/
 def regexTokens : List (String × String × String) := [
   ("Comment", "//[^\\n]*", "logos::skip"),
-  ("Ident", "(?&id)", "helpers::ident"),
-  ("PackageName", "(?&package_name)(@(?&semver))?", "helpers::package_name"),
-  ("PackagePath", "(?&package_name)(/(?&id))+(@(?&semver))?", "helpers::package_path")]
+  ("Ident", "(?&id)", ""),
+  ("PackageName", "(?&package_name)(@(?&semver))?", ""),
+  ("PackagePath", "(?&package_name)(/(?&id))+(@(?&semver))?", "")]
 
 def subpatterns : List (String × String) := [
   ("word", "[a-z][a-z0-9]*|[A-Z][A-Z0-9]*"),
